@@ -11,10 +11,12 @@ var Registry = map[string]func(*ev.Run){
 	"C07": C07,
 	"C08": C08,
 	"C05": C05,
+	"C09": C09,
 	"C10": C10,
 	"C11": C11,
 	"C12": C12,
 	"C13": C13,
 	"C16": C16,
 	"C14": C14,
+	"C15": C15,
 }
